@@ -78,6 +78,11 @@ class Gen:
         self.test_names = []
         self.targets = {}            # per block key -> list of (var, kind, nout)
         self.top_str_opts = []
+        # build_subdir: (meson >= 1.10) on a share of the targets; decided per project, together with the layout
+        self.flat = rng is not None and rng.random() < 0.12
+        # (also combined with --layout=flat: intro-targets.json said meson-out/<output> where build.ninja produces
+        # meson-out/<build_subdir>/<output> until fix b98a4c2)
+        self.build_subdirs = rng is not None and rng.random() < 0.6
 
     def uid(self):
         self.n += 1
@@ -179,6 +184,8 @@ class Gen:
             kw.append('input: %s' % mlist(ins))
         if rng.random() < 0.3:
             kw.append('build_by_default: %s' % rng.choice(['true', 'false']))
+        if self.build_subdirs and rng.random() < 0.25:
+            kw.append('build_subdir: %s' % mstr(rng.choice(['bs%d' % k, 'bs%d/deep' % k])))
         if avail and rng.random() < 0.25:
             kw.append('depends: %s' % rng.choice(avail)[0])
         if rng.random() < 0.45:
@@ -249,6 +256,8 @@ class Gen:
             kw.append('extra_files: %s' % mstr(f))
         if rng.random() < 0.15:
             kw.append('build_by_default: false')
+        if self.build_subdirs and rng.random() < 0.25:
+            kw.append('build_subdir: %s' % mstr(rng.choice(['bs%d' % k, 'bs%d/deep' % k])))
         blk.lines.append('%s = %s(%s, %s%s)' % (var, kind, mstr('t%d' % k), ', '.join(srcs), ''.join(', ' + x for x in kw)))
         return (var, 'exe' if kind == 'executable' else ('mod' if kind == 'shared_module' else 'lib'), 1)
 
@@ -489,7 +498,7 @@ class Gen:
             self.add_file('VERSION', '1.%d.0\n' % self.idx)
             self.expected_def_files.add('VERSION')
             pkw += ", version: files('VERSION')"
-        top.lines.append("project(%s%s%s, meson_version: '>=1.3')" % (mstr(self.name), langs, pkw))
+        top.lines.append("project(%s%s%s, meson_version: '>=1.10')" % (mstr(self.name), langs, pkw))
         self.expected_def_files.add('meson.build')
         opts = self.option_file(top, '')
         self.top_str_opts = [n for n, k in opts if k == 'string']
@@ -542,7 +551,7 @@ class Gen:
                         ('default_library', ['static', 'both']), ('werror', ['true']), ('unity', ['off'])):
             if rng.random() < 0.2:
                 self.setup_args.append('-D%s=%s' % (o, rng.choice(vals)))
-        if rng.random() < 0.12:
+        if self.flat:
             self.setup_args.append('--layout=flat')
         return self
 
